@@ -172,6 +172,83 @@ def classify_same_binding(shape, spell_a, spell_b, bound):
     return None
 
 
+NESTED_SRC = """import dds
+
+
+def work(a, tag=None):
+    return ("work", a, tag)
+
+
+def relay(a):
+    # a plain helper between the two kept calls
+    return dds.keep("/c13n/inner_via_helper", work, a, tag="h")
+
+
+def stage(n, offset=0):
+    inner = dds.keep("/c13n/inner", work, n)
+    inner2 = relay(n)
+    return ("stage", inner, inner2, offset)
+"""
+
+
+def nested_job(arg):
+    """A kept function whose body keeps another call on one of its own parameters: the inner signature follows the
+    binding of the outer call (same binding class -> same signature, other class -> other signature), whatever the spelling."""
+    scratch, idx = arg
+    import dds
+    from dds import _api
+    from vp.capstore import CapturingStore
+
+    rep = core.Report("C13")
+    d = os.path.join(scratch, "c13n_%d" % idx)
+    os.makedirs(os.path.join(d, "c13npkg%d" % idx))
+    open(os.path.join(d, "c13npkg%d" % idx, "__init__.py"), "w").write("")
+    open(os.path.join(d, "c13npkg%d" % idx, "m.py"), "w").write(NESTED_SRC)
+    sys.path.insert(0, d)
+    mod = importlib.import_module("c13npkg%d.m" % idx)
+    dds.accept_module("c13npkg%d" % idx)
+    dds.set_store("memory")
+    cs = CapturingStore(_api._store_var)
+    dds.set_store(cs)
+    by_class = {}
+    for v in VALUES:
+        for spelling, call in (("positional", lambda: dds.keep("/c13n/stage", mod.stage, v)), ("keyword", lambda: dds.keep("/c13n/stage", mod.stage, n=v)),
+                               ("explicit default", lambda: dds.keep("/c13n/stage", mod.stage, v, 0)), ("eval", lambda: dds.eval(mod.stage, v))):
+            cs.clear()
+            rep.evaluations += 1
+            rep.count("calls_nested")
+            want = ("stage", ("work", v, None), ("work", v, "h"), 0)
+            try:
+                got = call()
+            except BaseException as e:
+                rep.violate("nested keep: stage(%r) spelled %s raised %s: %s" % (v, spelling, type(e).__name__, str(e)[:120]), {"nested": True, "value": repr(v), "spelling": spelling}, mechanism="keep-raised")
+                continue
+            if V.canon_doc(got) != V.canon_doc(want):  # bool = int is a documented identification
+                rep.violate("nested keep: stage(%r) spelled %s returned %r, plain execution gives %r (an inner result computed for another binding was served)" % (v, spelling, got, want),
+                            {"nested": True, "value": repr(v), "spelling": spelling},
+                            mechanism="none-sentinel-string" if (v is None or v == "__DDS_NONE__") and isinstance(got, tuple) and len(got) == 4 and got[1][1:2] in ((None,), ("__DDS_NONE__",)) else "nested-wrong-value")
+            m = cs.last_sync() or {}
+            for inner in ("/c13n/inner", "/c13n/inner_via_helper"):
+                if inner in m:
+                    by_class.setdefault((inner, repr(V.canon_doc(v))), set()).add(m[inner])
+    sig_owner = {}
+    for (inner, ck), sigs in by_class.items():
+        rep.count("binding_classes")
+        if len(sigs) > 1:
+            rep.violate("nested keep: %s has %d signatures for the outer binding %s" % (inner, len(sigs), ck), {"nested": True, "class": ck}, mechanism="nested-same-binding-differs")
+        for sg in sigs:
+            if (inner, sg) in sig_owner and sig_owner[(inner, sg)] != ck:
+                o = sig_owner[(inner, sg)]
+                a, b = eval(o), eval(ck)
+                known = (a == ("none",) and b == ("str", "__DDS_NONE__")) or (b == ("none",) and a == ("str", "__DDS_NONE__"))
+                rep.violate("nested keep: %s shares one signature for the outer bindings %s and %s" % (inner, o, ck), {"nested": True, "classes": [o, ck]},
+                            mechanism="none-sentinel-string" if known else "nested-distinct-bindings-collide")
+            sig_owner[(inner, sg)] = ck
+    if by_class:
+        rep.nontriv(("c13nested", idx))
+    return rep
+
+
 def run(tier, seed):
     rep = core.Report("C13")
     rng = core.rng_for(seed, "c13")
@@ -181,7 +258,7 @@ def run(tier, seed):
         "functions with 1..%d positional-or-keyword parameters, defaults drawn from %r (all shapes for n<=2, sampled for n>=3); "
         "bindings over %r (all for n=1, sampled otherwise); every spelling = positional prefix + each permutation of keywords, "
         "each defaulted parameter explicit or omitted; each spelling is run as a direct dds.keep and as literals in a wrapper under dds.eval; then the module is rewritten with other defaults for the same "
-        "function, reloaded in the same process, and everything is asked again. "
+        "function, reloaded in the same process, and everything is asked again; plus a kept function that keeps another call on one of its own parameters (directly and through a plain helper), asked for every value and spelling. "
         "distinct_nontrivial = number of distinct (function shape, binding class) groups for which at least two spellings/modes were compared."
         % (nmax, DEFAULTS, VALUES)
     )
@@ -209,6 +286,12 @@ def run(tier, seed):
                 bs = list(dict.fromkeys(dflt + allb[:k]))
             jobs.append((shape, idx, bs, scratch))
         results = core.fork_map(job, jobs, timeout=600)
+        nres = core.fork_map(nested_job, [(scratch, 0)], timeout=600)
+    for r in nres:
+        if isinstance(r, core.JobFailed):
+            rep.inconclusive.append("nested job: %r" % (r,))
+        else:
+            rep.merge(r)
     passes = []
     for jb, res in zip(jobs, results):
         if isinstance(res, core.JobFailed):
